@@ -79,3 +79,8 @@ claim("C20", "other",
       "R13 skip rule, register copies, samples_per_frame, frame pacing per iteration, chunking independence (no dependence on buffer length/position/processed count), mono/stereo agreement, frame_registers bounds.",
       "Not decided: transposition in Vtx::load and the total sample count (no induction over the loop).",
       "DESIGN.md §3 C20")
+claim("C16", "other",
+      "intraprocedural taint of stopwatch readings; mod-ref isolation of sound-generation state over the resolved call graph; who-may-call on LoadableAsset::read; path-sensitive check of read_exact; absence scan with a positive control",
+      "Stopwatch readings reach only the limit comparison and EmulationInfo.duration; no field written by sound generation is read outside its call closure; AY port-visible registers are not written by generation; read() only behind read_exact/adapters and read_exact tolerates short reads; no nondeterministic API outside the host stopwatch.",
+      "Not decided: bit-identical audio under different drain patterns (excluded by the statement). The call graph over-approximates unresolved trait calls with generic Self.",
+      "DESIGN.md §3 C16")
